@@ -186,6 +186,14 @@ def random_netlist(rng, lib, libname, n_inst=6, with_buses=True, with_assigns=Tr
                 qb = N.port_bits(rng.choice(in_buses))
                 at = rng.randrange(0, len(bits) - len(qb) + 1)
                 srcs[at:at + len(qb)] = qb
+            if with_consts and len(bits) >= 2 and rng.random() < 0.35:
+                # two or three adjacent constant bits that are not all equal (rendered as one sized constant: bit order matters)
+                k_ = rng.randrange(2, min(3, len(bits)) + 1)
+                at = rng.randrange(0, len(bits) - k_ + 1)
+                vals = [rng.choice('01') for _ in range(k_)]
+                if len(set(vals)) == 1:
+                    vals[rng.randrange(k_)] = '1' if vals[0] == '0' else '0'
+                srcs[at:at + k_] = [f"1'b{v}" for v in vals]
             for b, src in zip(bits, srcs):
                 N.assigns.append((b, src))
         else:
@@ -267,6 +275,16 @@ def render_verilog(N, rng, positional_prob=0.2):
     def rhs(srcs):
         out, k = [], 0
         while k < len(srcs):
+            run = 0
+            while k + run < len(srcs) and srcs[k + run].startswith("1'b"):
+                run += 1
+            if run >= 2 and rng.random() < 0.7:
+                bits_ = ''.join(x[3] for x in srcs[k:k + run])            # MSB (leftmost) first
+                v = int(bits_, 2)
+                big = v + (1 << run) * rng.randrange(1, 4)
+                out.append(rng.choice([f"{run}'b{bits_}", f"{run}'d{v}", f"{run}'h{v:x}", f"{run}'d{big}", f"{run}'H{big:X}"]))
+                k += run
+                continue
             hit = next((nm for nm, bb in buses.items() if srcs[k:k + len(bb)] == bb), None)
             if hit is not None and rng.random() < 0.7:
                 out.append(vname(hit))
